@@ -149,6 +149,166 @@ theorem seqRun_increasing (n : Nat) (last : Int) (script : List (Option Nat)) (l
       · have := h2 v hv
         omega
 
+
+/-! ### the `i64` hypothesis, quantified
+
+`compute_next` is modelled on unbounded integers; on `i64` it needs `last + 1` not to overflow. The bound below
+shows how far that is from reality: if every clock reading is at most `U`, then after any number of steps with
+`k` successful CASes the shared counter is at most `max 0 U + k` - with microsecond readings below 2^62 and fewer
+than 2^62 calls, `last` stays below `i64::MAX`. -/
+
+private theorem computeNext_le (l U : Int) (clock : Option Int) (h : ∀ u, clock = some u → u ≤ U) :
+    computeNext l clock ≤ max (l + 1) U := by
+  cases clock with
+  | none => simp only [computeNext]; omega
+  | some u =>
+    have := h u rfl
+    simp only [computeNext]
+    split <;> omega
+
+/-- Bound invariant: the counter and every computed candidate stay below `max 0 U + (number of logged values) + 1`. -/
+private def Bnd (U : Int) (s : St) : Prop :=
+  s.last ≤ max 0 U + s.log.length ∧
+  (∀ t l, s.pcs t = .loaded l → l ≤ max 0 U + s.log.length) ∧
+  (∀ t l c, s.pcs t = .computed l c → c ≤ max 0 U + s.log.length + 1)
+
+private def clockOk (U : Int) : Ev → Prop
+  | .compute _ (some u) => u ≤ U
+  | _ => True
+
+private theorem setPc_loaded {pcs : Nat → Pc} {t t' : Nat} {pc : Pc} {l : Int}
+    (h : setPc pcs t pc t' = .loaded l) : (t' = t ∧ pc = .loaded l) ∨ (t' ≠ t ∧ pcs t' = .loaded l) := by
+  unfold setPc at h
+  split at h
+  · exact Or.inl ⟨by assumption, h⟩
+  · exact Or.inr ⟨by assumption, h⟩
+
+private theorem bnd_step (U : Int) (s : St) (e : Ev) (hb : Bnd U s) (he : clockOk U e) : Bnd U (step s e) := by
+  obtain ⟨h1, h2, h3⟩ := hb
+  cases e with
+  | load t =>
+    simp only [step]
+    cases hp : s.pcs t with
+    | idle =>
+      dsimp only
+      refine ⟨h1, ?_, ?_⟩
+      · intro t' l hl
+        rcases setPc_loaded hl with ⟨_, h⟩ | ⟨_, h⟩
+        · cases h; exact h1
+        · exact h2 t' l h
+      · intro t' l c hc
+        rcases setPc_computed hc with ⟨_, h⟩ | ⟨_, h⟩
+        · cases h
+        · exact h3 t' l c h
+    | loaded l => exact ⟨h1, h2, h3⟩
+    | computed l c => exact ⟨h1, h2, h3⟩
+  | compute t clock =>
+    simp only [step]
+    cases hp : s.pcs t with
+    | idle => exact ⟨h1, h2, h3⟩
+    | computed l c => exact ⟨h1, h2, h3⟩
+    | loaded l =>
+      have hl := h2 t l hp
+      have hcl : ∀ u, clock = some u → u ≤ U := by
+        intro u hu; subst hu; exact he
+      have hcn := computeNext_le l U clock hcl
+      dsimp only
+      refine ⟨h1, ?_, ?_⟩
+      · intro t' l' hl'
+        rcases setPc_loaded hl' with ⟨_, h⟩ | ⟨_, h⟩
+        · cases h
+        · exact h2 t' l' h
+      · intro t' l' c' hc
+        rcases setPc_computed hc with ⟨_, h⟩ | ⟨_, h⟩
+        · cases h
+          show computeNext l clock ≤ max 0 U + (s.log.length : Int) + 1
+          omega
+        · exact h3 t' l' c' h
+  | cas t =>
+    simp only [step]
+    cases hp : s.pcs t with
+    | idle => exact ⟨h1, h2, h3⟩
+    | loaded l => exact ⟨h1, h2, h3⟩
+    | computed l c =>
+      have hc := h3 t l c hp
+      dsimp only
+      split
+      · refine ⟨?_, ?_, ?_⟩
+        · simp only [List.length_append, List.length_cons, List.length_nil]; omega
+        · intro t' l' hl'
+          rcases setPc_loaded hl' with ⟨_, h⟩ | ⟨_, h⟩
+          · cases h
+          · have := h2 t' l' h
+            simp only [List.length_append, List.length_cons, List.length_nil]; omega
+        · intro t' l' c' hc'
+          rcases setPc_computed hc' with ⟨_, h⟩ | ⟨_, h⟩
+          · cases h
+          · have := h3 t' l' c' h
+            simp only [List.length_append, List.length_cons, List.length_nil]; omega
+      · refine ⟨h1, ?_, ?_⟩
+        · intro t' l' hl'
+          rcases setPc_loaded hl' with ⟨_, h⟩ | ⟨_, h⟩
+          · cases h
+          · exact h2 t' l' h
+        · intro t' l' c' hc'
+          rcases setPc_computed hc' with ⟨_, h⟩ | ⟨_, h⟩
+          · cases h
+          · exact h3 t' l' c' h
+
+/-- **No overflow in practice.** If every clock reading is at most `U`, then after any interleaving the shared
+counter (and hence every timestamp handed out) is at most `max 0 U` plus the number of timestamps handed out. -/
+theorem counter_bounded (U : Int) (evs : List Ev) (hclock : ∀ e ∈ evs, clockOk U e) :
+    (run St.init evs).last ≤ max 0 U + (run St.init evs).log.length := by
+  have hinit : Bnd U St.init := by
+    refine ⟨by simp [St.init]; omega, ?_, ?_⟩
+    · intro t l h; simp [St.init] at h
+    · intro t l c h; simp [St.init] at h
+  suffices h : ∀ (s : St), Bnd U s → (∀ e ∈ evs, clockOk U e) → Bnd U (run s evs) from (h St.init hinit hclock).1
+  intro s hs hc
+  induction evs generalizing s with
+  | nil => exact hs
+  | cons e es ih =>
+    have he := hc e List.mem_cons_self
+    exact ih (fun e' he' => hclock e' (List.mem_cons_of_mem _ he')) (step s e) (bnd_step U s e hs he)
+      (fun e' he' => hc e' (List.mem_cons_of_mem _ he'))
+
+theorem returns_bounded (U : Int) (evs : List Ev) (hclock : ∀ e ∈ evs, clockOk U e) :
+    ∀ v ∈ (run St.init evs).log.map (·.2), v ≤ max 0 U + (run St.init evs).log.length := by
+  intro v hv
+  have := last_is_upper_bound evs v hv
+  have := counter_bounded U evs hclock
+  omega
+
+/-- One thread's `calls` consecutive calls are the interleaving `[load, compute, cas]*` of the model: the values
+the correspondence check compares are exactly the log of that run. -/
+def seqEvents : Nat → List (Option Nat) → Option Nat → List Ev
+  | 0, _, _ => []
+  | n + 1, script, lastEntry =>
+    let (r, rest) := readClock script lastEntry
+    [.load 0, .compute 0 (r.map microsAsI64), .cas 0] ++ seqEvents n rest r
+
+private theorem run_append (s : St) (a b : List Ev) : run s (a ++ b) = run (run s a) b := by
+  simp [run, List.foldl_append]
+
+private theorem one_call (s : St) (clock : Option Int) (h : s.pcs 0 = .idle) :
+    run s [.load 0, .compute 0 clock, .cas 0] =
+      { last := computeNext s.last clock, pcs := setPc (setPc (setPc s.pcs 0 (.loaded s.last)) 0
+          (.computed s.last (computeNext s.last clock))) 0 .idle,
+        log := s.log ++ [(0, computeNext s.last clock)] } := by
+  simp [run, step, h, setPc]
+
+theorem seqRun_is_run (n : Nat) (s : St) (script : List (Option Nat)) (le : Option Nat) (h : s.pcs 0 = .idle) :
+    (run s (seqEvents n script le)).log = s.log ++ (seqRun n s.last script le).map (fun v => (0, v)) := by
+  induction n generalizing s script le with
+  | zero => simp [seqEvents, seqRun, run]
+  | succ n ih =>
+    unfold seqEvents seqRun
+    simp only []
+    rw [run_append, one_call s _ h]
+    rw [ih]
+    · simp
+    · simp [setPc]
+
 -- non-vacuity: two threads, a stalled clock (both read 5), thread 1's first CAS fails and it retries;
 -- then a clock jumping backwards.
 example :
